@@ -864,3 +864,95 @@ V("C09", "C09.R2", "c09-silent-reorder-independent", "shroud/declast.py",
         new.volatile = self.volatile''',
   '''        new.volatile = self.volatile
         new.const = self.const''', "silent")
+
+# ---------------------------------------------------------------------------
+# C08
+# ---------------------------------------------------------------------------
+V("C08", "C08.R1", "c08-template-clone-not-indexed", "shroud/generate.py",
+  '''            new = node.clone()
+            ordered_functions.append(new)
+            self.append_function_index(new)
+
+            new._generated = "cxx_template"
+
+            fmt = new.fmtdict''',
+  '''            new = node.clone()
+            ordered_functions.append(new)
+
+            new._generated = "cxx_template"
+
+            fmt = new.fmtdict''', "fire", "template_function:")
+V("C08", "C08.R1", "c08-generic-c-clone-not-listed", "shroud/generate.py",
+  '''                cnew = node.clone()
+                ordered_functions.append(cnew)
+                self.append_function_index(cnew)''',
+  '''                cnew = node.clone()
+                self.append_function_index(cnew)''', "fire", "cnew")
+V("C08", "C08.R1", "c08-template2-original-kept", "shroud/generate.py",
+  '''        #        self.pop_instantiate_scope()
+
+        # Do not process templated node, instead process
+        # generated functions above.
+        node.wrap.clear()''',
+  '''        #        self.pop_instantiate_scope()
+''', "fire", "template_function2")
+V("C08", "C08.R1", "c08-bufferify-no-suffix", "shroud/generate.py",
+  "        fmt_func.function_suffix = fmt_func.function_suffix + fmt_func.C_bufferify_suffix\n",
+  "", "fire", "arg_to_buffer")
+V("C08", "C08.R1", "c08-return-this-both-wrapped", "shroud/generate.py",
+  '''        new.wrap.fortran = node.wrap.fortran
+        node.wrap.c = False
+        node.wrap.fortran = False''',
+  '''        new.wrap.fortran = node.wrap.fortran''', "fire", "process_return_this")
+V("C08", "C08.R1", "c08-class-suffix-constant", "shroud/generate.py",
+  '''                    cxx_class = "{}{}".format(
+                        newcls.fmtdict.cxx_class, class_suffix
+                    )''',
+  '''                    cxx_class = "{}".format(
+                        newcls.fmtdict.cxx_class
+                    )''', "fire", "instantiate_classes")
+V("C08", "C08.R2", "c08-py-template-no-template-suffix", "shroud/ast.py",
+  '"{PY_prefix}{function_name}{function_suffix}{template_suffix}"',
+  '"{PY_prefix}{function_name}{function_suffix}"', "fire", "PY_name_impl_template")
+V("C08", "C08.R2", "c08-generic-template-with-suffix", "shroud/ast.py",
+  'F_name_generic_template="{underscore_name}",', 'F_name_generic_template="{underscore_name}{function_suffix}",',
+  "fire", "F_name_generic_template")
+V("C08", "C08.R2", "c08-c-name-undocumented-change", "shroud/ast.py",
+  '"{C_prefix}{C_name_scope}{underscore_name}{function_suffix}{template_suffix}"',
+  '"{C_prefix}{C_name_scope}{underscore_name}{template_suffix}{function_suffix}"', "fire", "docs/reference.rst:C_name_template")
+V("C08", "C08.R3", "c08-overload-suffix-constant", "shroud/generate.py",
+  '                        function.fmtdict.function_suffix = "_{}".format(i)',
+  '                        function.fmtdict.function_suffix = "_{}".format(len(overloads))', "fire", "overload-suffix")
+V("C08", "C08.R3", "c08-overload-ignores-explicit", "shroud/generate.py",
+  '''                    if not function.fmtdict.inlocal("function_suffix"):
+                        function.fmtdict.function_suffix = "_{}".format(i)''',
+  '''                    if True:
+                        function.fmtdict.function_suffix = "_{}".format(i)''', "fire", "explicit-wins")
+V("C08", "C08.R3", "c08-generic-counter-stuck", "shroud/ast.py",
+  "            isuffix += 1\n        ddct[\"fortran_generic\"] = newlst",
+  "        ddct[\"fortran_generic\"] = newlst", "fire", "fortran_generic-counter")
+V("C08", "C08.R4", "c08-generic-lists-function-name", "shroud/wrapf.py",
+  '''                    for node in generics:
+                        iface.append("module procedure " + node.fmtdict.F_name_impl)
+                else:''',
+  '''                    for node in generics:
+                        iface.append("module procedure " + node.fmtdict.F_name_function)
+                else:''', "fire", "dump_generic_interfaces:specifics")
+V("C08", "C08.R5", "c08-un-camel-stateful", "shroud/util.py",
+  '''    result = []
+    pos = 0
+    while pos < len(text):''',
+  '''    result = []
+    pos = 0
+    if text in _camel_cache:
+        return _camel_cache[text]
+    while pos < len(text):''', "fire", "un_camel")
+V("C08", "C08.R1", "c08-silent-rename-clone-var", "shroud/generate.py",
+  '''        new = node.clone()
+        ordered_functions.append(new)
+        self.append_function_index(new)
+        new._generated = "return_this"''',
+  '''        new = node.clone()
+        self.append_function_index(new)
+        ordered_functions.append(new)
+        new._generated = "return_this"''', "silent")
